@@ -268,7 +268,7 @@ func (r *runner) runArbitrary(n int, seed int64) {
 		for k, x := range proj {
 			ev[k] = x
 		}
-		r.feed(ev, parent, blk, false)
+		r.feed(ev, parent, blk, "victim")
 	}
 }
 
